@@ -4,6 +4,7 @@ package main
 // C11 (FromStr32/PathOf/PathsOf).
 
 import (
+	"bytes"
 	"math/bits"
 	"math/rand"
 
@@ -775,6 +776,23 @@ func genC11(g *Gen) {
 		}
 		w := int64(r.Intn(33))
 		g.Case("fromstr32", J{"s": bytesJ(randBytes(r, r.Intn(6))), "from": from, "w": w, "direct": from+w <= maxI32})
+	}
+	// extreme path words: all-ones and all-zero prefixes of full length at heights 31/32 (the numerically largest and
+	// smallest path words), first in the list, repeated, with and without dedup
+	for c := 0; c < g.N(40, 600); c++ {
+		h := []int{32, 32, 31, 30, 8, 1, 0}[r.Intn(7)]
+		from := []int{0, 0, 8, 3}[r.Intn(4)]
+		ff := string(bytes.Repeat([]byte{0xff}, 6))
+		zz := string(make([]byte, 6))
+		pool := []string{ff, ff, zz, ff[:4], zz[:4], "", "\xff\xff\xff\xfe\xff", ff[:3]}
+		var keys []string
+		for i := 1 + r.Intn(5); i > 0; i-- {
+			keys = append(keys, pool[r.Intn(len(pool))])
+		}
+		if c%3 == 0 {
+			keys[0] = ff
+		}
+		g.Case("pathsof", J{"keys": strsJ(keys), "from": from, "h": h, "dedup": c%4 != 3})
 	}
 	for c := 0; c < g.N(400, 15000); c++ {
 		nk := 1 + r.Intn(8)
